@@ -1,7 +1,7 @@
 (* SqlFmt/Properties.v — C16: SQL reformatting preserves statements (expression fragment, token level). *)
 From Common Require Import Base.
 From Coq Require Import Ascii String.
-From SqlFmt Require Import PrecClimb PrecClimbProofs Model Proofs LexProofs.
+From SqlFmt Require Import PrecClimb PrecClimbProofs Model Proofs LexProofs WfText.
 Open Scope N_scope.
 
 (* The property for the modelled fragment, at full strength: for the real tier table and the real keyword table,
@@ -49,6 +49,17 @@ Theorem C16_reparse_text : forall kws ts a,
   exists ts', lex (render true kws a) = LOk ts' /\ sparse sql_tbl ts' = Some a.
 Proof. exact sql_reparse_text. Qed.
 
+(* every parser result whose numbers are digit strings satisfies eokb ... *)
+Theorem C16_parse_eok : forall ts a, sparse sql_tbl ts = Some a -> num_atoms_ok a -> eokb a = true.
+Proof. exact parse_eok. Qed.
+
+(* ... so C16_statement holds for the repaired printer on every accepted token list of the fragment whose numbers are
+   digit strings: the printed TEXT lexes, and parses back to the same tree *)
+Theorem C16_statement_text : forall kws ts a,
+  covers kws = true -> sparse sql_tbl ts = Some a -> num_atoms_ok a ->
+  exists ts', lex (render true kws a) = LOk ts' /\ sparse sql_tbl ts' = Some a.
+Proof. exact sql_statement_text. Qed.
+
 (* the pinned tables pass the computable checks *)
 Theorem C16_tables_ok : wf_table str_eqb sql_tbl = true /\ covers kws_pinned = true.
 Proof. split; vm_compute; reflexivity. Qed.
@@ -90,5 +101,8 @@ Qed.
 Example C16_text_ex :
   exists a, sparse sql_tbl ex_toks = Some a /\ eokb a = true.
 Proof. eexists. split; vm_compute; reflexivity. Qed.
+Example C16_statement_text_ex :
+  exists a, sparse sql_tbl ex_toks = Some a /\ num_atoms_ok a.
+Proof. eexists. split; [vm_compute; reflexivity|]. cbn. repeat split. Qed.
 Example C16_quote_ex : lex (quote 39 (L "it's")) = LOk [(3, L "it's", false)].
 Proof. vm_compute. reflexivity. Qed.
